@@ -588,4 +588,164 @@ theorem splitMid_spec {compound : Bool} {n : Node} (h : NodeInv compound n) (hfu
           · rw [kold] at hx; exact hhalves x hx y hy
       · exact absurd e (by simp)
 
+/-! ### the chain invariant -/
+
+/-- every key of `a` sorts before every key of `b` -/
+def Above (compound : Bool) (a b : Node) : Prop := ∀ x ∈ keys a, ∀ y ∈ keys b, gtS compound x y
+
+/-- invariant of the chain between API calls: every node satisfies the node invariant (hence is non-empty, holds at most
+`KVBLK_IDXNUM` records, is sorted, caches its first key) and the nodes are in key order -/
+structure ChainInv (compound : Bool) (ch : Chain) : Prop where
+  nodes : ∀ n ∈ ch, NodeInv compound n
+  order : ch.Pairwise (Above compound)
+
+theorem chainInv_nil (compound : Bool) : ChainInv compound [] := ⟨fun _ h => absurd h (by simp), List.Pairwise.nil⟩
+
+theorem pi_ne_nil {compound : Bool} {n : Node} (h : NodeInv compound n) : n.pi ≠ [] := by
+  intro e0
+  have := h.pnum; have := h.pos
+  rw [e0] at *; simp at *; omega
+
+theorem first_mem {compound : Bool} {n : Node} (h : NodeInv compound n) : keyAt n 0 ∈ keys n :=
+  List.mem_of_mem_head? (head?_keys n (pi_ne_nil h))
+
+/-- the first key of a node sorts before all its other keys -/
+theorem first_le {compound : Bool} {n : Node} (h : NodeInv compound n) : ∀ y ∈ keys n, y = keyAt n 0 ∨ gtS compound (keyAt n 0) y := by
+  intro y hy
+  have hks : keys n = keyAt n 0 :: (keys n).tail := by
+    have := head?_keys n (pi_ne_nil h)
+    cases hq : keys n with
+    | nil => rw [hq] at this; simp at this
+    | cons x xs => rw [hq] at this; simp at this; simp [this]
+  have hsorted := h.sorted
+  rw [hks] at hsorted hy
+  rcases List.mem_cons.1 hy with e1 | hy
+  · exact Or.inl e1
+  · exact Or.inr ((List.pairwise_cons.1 hsorted).1 y hy)
+
+/-- the comparison `_lx_roll_forward` makes (through the cached key) has the sign of the comparison of the whole first key with
+the lookup key -/
+theorem lx_pos_iff {compound : Bool} {n : Node} (h : NodeInv compound n) (k : Bytes) (c : Nat) :
+    lxCmp compound n k c > 0 ↔ gtS compound (skOf compound k c) (keyAt n 0) := by
+  have hag := lookup_agrees compound h.toCore (pi_ne_nil h) k c
+  have hc : cmpOf compound k c (keyAt n 0) = cmpS compound (keyAt n 0) (skOf compound k c) := by
+    show _ = cmpS compound (keyAt n 0) (preOf compound c ++ k)
+    rw [preOf_append]; exact cmpOf_eq compound k c _ (h.wf _ (first_mem h))
+  have hc' : Cmp.cmpKeys .plain compound (keyAt n 0) k c = cmpS compound (keyAt n 0) (skOf compound k c) := hc
+  rw [hc'] at hag
+  constructor
+  · intro hgt
+    have : sgn (lxCmp compound n k c) = 1 := Cmp.sgn_pos.2 hgt
+    rw [this] at hag
+    exact (cmpS_flip compound _ _).2.2.1 (Cmp.sgn_pos.1 hag.symm)
+  · intro hg
+    have : cmpS compound (keyAt n 0) (skOf compound k c) > 0 := (cmpS_flip compound _ _).1.1 hg
+    have : sgn (cmpS compound (keyAt n 0) (skOf compound k c)) = 1 := Cmp.sgn_pos.2 this
+    rw [this] at hag
+    exact Cmp.sgn_pos.1 hag
+
+theorem lowerCnt_spec (compound : Bool) (k : Bytes) (c : Nat) (ch : Chain) :
+    lowerCnt compound k c ch ≤ ch.length ∧
+    (∀ j (hj : j < ch.length), j < lowerCnt compound k c ch → ¬ lxCmp compound ch[j] k c > 0) ∧
+    (∀ hj : lowerCnt compound k c ch < ch.length, lxCmp compound ch[lowerCnt compound k c ch] k c > 0) := by
+  induction ch with
+  | nil => simp [lowerCnt]
+  | cons n t ih =>
+    by_cases hgt : lxCmp compound n k c > 0
+    · simp only [lowerCnt, hgt, if_true]
+      refine ⟨Nat.zero_le _, fun j _ hj => by omega, fun _ => by simpa using hgt⟩
+    · simp only [lowerCnt, hgt, if_false]
+      refine ⟨by simp; exact ih.1, ?_, ?_⟩
+      · intro j hj hlt
+        cases j with
+        | zero => simpa using hgt
+        | succ j => simpa using ih.2.1 j (by simpa using hj) (by omega)
+      · intro hj
+        simpa using ih.2.2 (by simpa using hj)
+
+/-- where the lookup ends: the nodes in front of `lower` hold only keys that sort before the lookup key, `lower`'s first key does
+not sort after it, the nodes from `upper` on hold only keys that sort after it -/
+theorem route_spec {compound : Bool} {ch : Chain} (h : ChainInv compound ch) (k : Bytes) (c : Nat) :
+    (∀ a ∈ ch.take (lowerCnt compound k c ch - 1), ∀ x ∈ keys a, gtS compound x (skOf compound k c)) ∧
+    (∀ b ∈ ch.drop (lowerCnt compound k c ch), ∀ y ∈ keys b, gtS compound (skOf compound k c) y) ∧
+    (∀ n, 0 < lowerCnt compound k c ch → ch[lowerCnt compound k c ch - 1]? = some n →
+      cmpS compound (keyAt n 0) (skOf compound k c) ≤ 0) := by
+  obtain ⟨hle, hbefore, hat⟩ := lowerCnt_spec compound k c ch
+  generalize lowerCnt compound k c ch = cnt at hle hbefore hat
+  have hord := List.pairwise_iff_getElem.1 h.order
+  have hlow : ∀ n, 0 < cnt → ch[cnt - 1]? = some n → cmpS compound (keyAt n 0) (skOf compound k c) ≤ 0 := by
+    intro n hpos hn
+    have hj : cnt - 1 < ch.length := by omega
+    have en : ch[cnt - 1] = n := by rw [List.getElem?_eq_getElem hj] at hn; exact Option.some.inj hn
+    have hnot := hbefore (cnt - 1) hj (by omega)
+    rw [en] at hnot
+    have hinv := h.nodes n (en ▸ List.getElem_mem hj)
+    rw [lx_pos_iff hinv] at hnot
+    have := (cmpS_flip compound (keyAt n 0) (skOf compound k c)).2.2
+    unfold gtS at hnot
+    omega
+  refine ⟨?_, ?_, hlow⟩
+  · intro a ha x hx
+    obtain ⟨j, hj, ej⟩ := List.mem_take_iff_getElem.1 ha
+    have hj1 : j < cnt - 1 := by omega
+    have hl : cnt - 1 < ch.length := by omega
+    have hab : Above compound ch[j] ch[cnt - 1] := hord j (cnt - 1) (by omega) hl hj1
+    have hinv := h.nodes _ (List.getElem_mem hl)
+    have h1 : gtS compound x (keyAt ch[cnt - 1] 0) := hab x (by rw [ej]; exact hx) _ (first_mem hinv)
+    exact gtS_of_le compound _ _ _ h1 (hlow _ (by omega) (List.getElem?_eq_getElem hl))
+  · intro b hb y hy
+    obtain ⟨j, hj, ej⟩ := List.mem_drop_iff_getElem.1 hb
+    have hc : cnt < ch.length := by omega
+    have hup := hat hc
+    have hinvu := h.nodes _ (List.getElem_mem hc)
+    rw [lx_pos_iff hinvu] at hup
+    have hyu : ∀ y ∈ keys ch[cnt], gtS compound (skOf compound k c) y := by
+      intro y hy
+      rcases first_le hinvu y hy with e1 | hg
+      · rw [e1]; exact hup
+      · exact gtS_trans compound _ _ _ hup hg
+    by_cases hj0 : j = 0
+    · subst hj0
+      have : ch[cnt + 0] = ch[cnt] := by simp
+      rw [← ej, this] at hy
+      exact hyu y hy
+    · have hab : Above compound ch[cnt] ch[cnt + j] := hord cnt (cnt + j) hc (by omega) (by omega)
+      have := hab _ (first_mem hinvu) y (by rw [ej]; exact hy)
+      exact gtS_trans compound _ _ _ hup this
+
+/-- a stretch `mid` of the chain replaced by `mid'`: the invariant survives if the new nodes satisfy the node invariant, are in
+order, and each of their keys is a key of the old stretch or sorts between the keys of the part in front and the part behind -/
+theorem chainInv_replace {compound : Bool} {pre mid mid' post : Chain} (h : ChainInv compound (pre ++ (mid ++ post)))
+    (hn : ∀ m ∈ mid', NodeInv compound m) (ho : mid'.Pairwise (Above compound))
+    (hk : ∀ m ∈ mid', ∀ x ∈ keys m, (∃ m0 ∈ mid, x ∈ keys m0) ∨
+      ((∀ a ∈ pre, ∀ z ∈ keys a, gtS compound z x) ∧ (∀ b ∈ post, ∀ y ∈ keys b, gtS compound x y))) :
+    ChainInv compound (pre ++ (mid' ++ post)) := by
+  have hord := h.order
+  rw [List.pairwise_append] at hord
+  obtain ⟨o1, o2, o3⟩ := hord
+  rw [List.pairwise_append] at o2
+  obtain ⟨o4, o5, o6⟩ := o2
+  refine ⟨?_, ?_⟩
+  · intro n hn'
+    rcases List.mem_append.1 hn' with h1 | h1
+    · exact h.nodes n (List.mem_append.2 (Or.inl h1))
+    · rcases List.mem_append.1 h1 with h2 | h2
+      · exact hn n h2
+      · exact h.nodes n (List.mem_append.2 (Or.inr (List.mem_append.2 (Or.inr h2))))
+  · rw [List.pairwise_append]
+    refine ⟨o1, ?_, ?_⟩
+    · rw [List.pairwise_append]
+      refine ⟨ho, o5, ?_⟩
+      intro m hm b hb x hx y hy
+      rcases hk m hm x hx with ⟨m0, hm0, hx0⟩ | ⟨_, hr⟩
+      · exact o6 m0 hm0 b hb x hx0 y hy
+      · exact hr b hb y hy
+    · intro a ha m hm
+      rcases List.mem_append.1 hm with h2 | h2
+      · intro z hz x hx
+        rcases hk m h2 x hx with ⟨m0, hm0, hx0⟩ | ⟨hl, _⟩
+        · exact o3 a ha m0 (List.mem_append.2 (Or.inl hm0)) z hz x hx0
+        · exact hl a ha z hz
+      · exact o3 a ha m (List.mem_append.2 (Or.inr h2))
+
 end IwModel.KvChain
